@@ -130,8 +130,11 @@ async def run_all(s, schema_name, plain_cases, valid_cases):
     oracle_ref = [None, ctx_obj]
     coercer_log = []
 
+    stamp = [0]
+
     async def recording_coercer(exception, error):
-        tag = "c%d" % len(coercer_log)
+        stamp[0] += 1                        # never reused: a stale entry from an earlier request is recognisable
+        tag = "c%d" % stamp[0]
         coercer_log.append({"tag": tag, "error": error, "exc": type(exception).__name__})
         return {"tag": tag, "message": error.get("message")}
 
@@ -226,6 +229,9 @@ def main(tier_, replay=None):
                   "variables": rng.choice([None, {}, weird_variables(rng)]),
                   "recording_coercer": rng.random() < 0.3}
                  for q in arbitrary_inputs(rng, [c["query"] for c in valid[:15]])]
+        # the same request again, back to back, on the same engine (second time through the parse cache)
+        plain = [x for c in plain for x in ([c, dict(c)] if c["recording_coercer"] else [c])]
+        variants = [x for c in variants for x in ([c, dict(c)] if c.get("recording_coercer") and rng.random() < 0.5 else [c])]
         kinds["syntax_or_garbage"] += len(plain)
         kinds["valid"] += len(variants)
         runs = asyncio.run(run_all(s, fresh_schema_name("c18"), plain, variants))
